@@ -12,6 +12,8 @@ if [ $# -eq 0 ]; then
   /venv/bin/python "$here/tools/py2v_eq/main.py" --repo "${BIOM_REPO:-/repo}" --out "$here"; rc3=$?
   /venv/bin/python "$here/tools/py2v_part/main.py" --repo "${BIOM_REPO:-/repo}" --out "$here"; rcpart=$?   # grouping mode (tools/regen_part.sh)
   [ "$rcpart" -ne 0 ] && exit "$rcpart"
+  /venv/bin/python "$here/tools/py2v_cat/main.py" --repo "${BIOM_REPO:-/repo}" --out "$here"; rccat=$?   # accumulator mode (tools/regen_cat.sh)
+  [ "$rccat" -ne 0 ] && exit "$rccat"
   [ "$rc1" -ne 0 ] && exit "$rc1"
   [ "$rc2" -ne 0 ] && exit "$rc2"
   exit "$rc3"
